@@ -63,6 +63,9 @@ type JobScenario struct {
 	Probes     bool     `json:"probes,omitempty"`    // also stop the clock one second before every deadline
 
 	Budget  mc.Budget `json:"budget"`
+	// OtherFinalizer: the Job is submitted with somebody else's finalizer in its metadata; once the Job is
+	// being deleted that owner releases it at some point (u:release).
+	OtherFinalizer bool `json:"otherFinalizer,omitempty"`
 	// ColdStart: after a restart the Job and Pod informers list one after the other (DESIGN.md 10.9).
 	ColdStart bool `json:"coldStart,omitempty"`
 	Horizon int       `json:"horizon,omitempty"` // seconds of simulated time explored (0 = unbounded)
@@ -213,7 +216,7 @@ func (s JobScenario) newJob(name string) *execution.Job {
 	if s.RetryDelay > 0 {
 		tmpl.RetryDelaySeconds = i64(s.RetryDelay)
 	}
-	return &execution.Job{
+	rj := &execution.Job{
 		TypeMeta:   metav1.TypeMeta{APIVersion: "execution.furiko.io/v1alpha1", Kind: "Job"},
 		ObjectMeta: metav1.ObjectMeta{Namespace: "default", Name: name},
 		Spec: execution.JobSpec{
@@ -221,6 +224,21 @@ func (s JobScenario) newJob(name string) *execution.Job {
 			TTLSecondsAfterFinished: s.TTLJob,
 		},
 	}
+	if s.OtherFinalizer {
+		rj.Finalizers = []string{otherFinalizer}
+	}
+	return rj
+}
+
+const otherFinalizer = "example.com/held-by-someone-else"
+
+func hasOtherFinalizer(rj *execution.Job) bool {
+	for _, f := range rj.Finalizers {
+		if f == otherFinalizer {
+			return true
+		}
+	}
+	return false
 }
 
 func newJobWorld(scn JobScenario) *jobWorld {
@@ -431,6 +449,9 @@ func (w *jobWorld) envEnabled() []string {
 				if has(s.PodActions, "flap") && w.mem.FlapUsed < s.MaxFlap && len(p.Status.ContainerStatuses) > 0 {
 					out = append(out, "k:flap:"+name)
 				}
+				if has(s.PodActions, "sidecar") && w.mem.FlapUsed < s.MaxFlap && len(p.Status.ContainerStatuses) == 1 {
+					out = append(out, "k:sidecar:"+name)
+				}
 			}
 		}
 		if deleting && !s.KubeletDead {
@@ -467,6 +488,9 @@ func (w *jobWorld) envEnabled() []string {
 		}
 		if w.mem.ResyncUsed < s.MaxResync && w.SystemQuiescent() {
 			out = append(out, "u:resync:"+short)
+		}
+		if rj.DeletionTimestamp != nil && hasOtherFinalizer(rj) {
+			out = append(out, "u:release:"+short)
 		}
 	}
 	return out
@@ -538,6 +562,15 @@ func (w *jobWorld) envApply(action string) {
 			p.Status.Phase = corev1.PodPending
 			p.Status.ContainerStatuses = []corev1.ContainerStatus{{Name: "c", State: corev1.ContainerState{Waiting: &corev1.ContainerStateWaiting{Reason: "ContainerCreating"}}}}
 		})
+	case "k:sidecar":
+		// A helper container of the Pod has exited while the main one is still running: the Pod stays Running.
+		w.mem.FlapUsed++
+		w.API.EnvMutate(sim.Pods, "default/"+parts[2], func(o runtime.Object) {
+			p := o.(*corev1.Pod)
+			now := metav1.NewTime(w.Now())
+			p.Status.ContainerStatuses = append(p.Status.ContainerStatuses, corev1.ContainerStatus{Name: "helper",
+				State: corev1.ContainerState{Terminated: &corev1.ContainerStateTerminated{ExitCode: 0, Reason: "Completed", StartedAt: now, FinishedAt: now}}})
+		})
 	case "k:flap":
 		w.mem.FlapUsed++
 		w.API.EnvMutate(sim.Pods, "default/"+parts[2], func(o runtime.Object) {
@@ -593,6 +626,20 @@ func (w *jobWorld) envApply(action string) {
 		rj.Spec.KillTimestamp = nil
 		rj.ResourceVersion = ""
 		_, _ = w.API.Update("env", sim.Jobs, "", rj)
+	case "u:release":
+		// The owner of the other finalizer lets go.
+		rj := w.API.Job("default/" + parts[2]).DeepCopy()
+		var keep []string
+		for _, f := range rj.Finalizers {
+			if f != otherFinalizer {
+				keep = append(keep, f)
+			}
+		}
+		rj.Finalizers = keep
+		rj.ResourceVersion = ""
+		if _, err := w.API.Update("env", sim.Jobs, "", rj); err != nil {
+			panic(fmt.Sprintf("finalizer release rejected: %v", err))
+		}
 	case "u:delete":
 		w.mem.Deleted["default/"+parts[2]] = true
 		if err := w.API.Delete("env", sim.Jobs, "default/"+parts[2], -1); err != nil {
@@ -1502,7 +1549,7 @@ func (w *jobWorld) checkState(quiescent bool) {
 			}
 		}
 		// C13: deletion completes; TTL liveness.
-		if rj.DeletionTimestamp != nil && len(pods) == 0 && !future {
+		if rj.DeletionTimestamp != nil && len(pods) == 0 && !future && !hasOtherFinalizer(rj) {
 			w.Violate("C13", "deletion-stuck", "job is being deleted, no task exists, system at rest, job still present", w.features()...)
 		}
 		if rj.DeletionTimestamp != nil && len(pods) > 0 && !future && !w.scn.KubeletDead {
